@@ -299,3 +299,94 @@ def run_py(script, args=(), env=None, timeout=3600, input_=None):
         e.update({k: str(v) for k, v in env.items()})
     return subprocess.run([PY, script] + [str(a) for a in args], env=e, stdout=subprocess.PIPE,
                           stderr=subprocess.PIPE, text=True, timeout=timeout, input=input_)
+
+
+# ------------------------------------------------------------------------------------------
+# Running lian (one fresh child process per project)
+# ------------------------------------------------------------------------------------------
+def lian_batch(jobs, parallel=None, timeout=300, env=None):
+    """jobs: list of job dicts (see lianrun.py); 'dir' and 'out' are filled in when missing.
+    Returns the list of result dicts in job order.  Each job runs in its own process, forked from a zygote
+    that has imported lian from /repo/src (fresh import state per job, without paying the import per job).
+    A job that exceeds its timeout yields exit='TIMEOUT'."""
+    import queue
+    import threading
+    here = os.path.dirname(os.path.abspath(__file__))
+    script = os.path.join(here, "lianrun.py")
+    results = [None] * len(jobs)
+    q = queue.Queue()
+    for i, job in enumerate(jobs):
+        d = job["dir"]
+        os.makedirs(d, exist_ok=True)
+        job.setdefault("out", os.path.join(d, "result.json"))
+        job.setdefault("timeout", timeout)
+        if os.path.exists(job["out"]):
+            os.remove(job["out"])
+        jp = os.path.join(d, "job.json")
+        with open(jp, "w") as f:
+            json.dump(job, f)
+        q.put((i, jp, job))
+    # hash seed groups: a zygote has one PYTHONHASHSEED
+    seeds = sorted({str(j.get("hashseed", 0)) for j in jobs})
+    if len(seeds) > 1:
+        out = [None] * len(jobs)
+        for sd in seeds:
+            idx = [i for i, j in enumerate(jobs) if str(j.get("hashseed", 0)) == sd]
+            sub = lian_batch([jobs[i] for i in idx], parallel, timeout, env)
+            for i, r in zip(idx, sub):
+                out[i] = r
+        return out
+    e = dict(os.environ)
+    e["PYTHONPATH"] = REPO_SRC + os.pathsep + here
+    e["PYTHONHASHSEED"] = seeds[0] if seeds else "0"
+    e["PYTHONDONTWRITEBYTECODE"] = "1"
+    e["MPLCONFIGDIR"] = os.path.join(OUT, "mpl")
+    if env:
+        e.update(env)
+    n = min(parallel or NCPU, max(1, len(jobs)))
+
+    def worker():
+        p = subprocess.Popen([PY, script, "--serve"], env=e, stdin=subprocess.PIPE, stdout=subprocess.PIPE,
+                             stderr=subprocess.DEVNULL, text=True, bufsize=1)
+        ready = p.stdout.readline().strip()
+        if ready != "ready":
+            while True:
+                try:
+                    i, jp, job = q.get_nowait()
+                except queue.Empty:
+                    return
+                results[i] = {"exit": "ZYGOTE_FAILED", "traceback": "lian could not be imported from %s" % REPO_SRC, "exports": {},
+                              "console": "", "job_dir": job["dir"]}
+        while True:
+            try:
+                i, jp, job = q.get_nowait()
+            except queue.Empty:
+                break
+            t0 = time.time()
+            p.stdin.write(jp + "\n")
+            p.stdin.flush()
+            line = p.stdout.readline().strip()
+            if line.startswith("done") and os.path.exists(job["out"]):
+                with open(job["out"]) as f:
+                    res = json.load(f)
+            elif line.startswith("timeout"):
+                res = {"exit": "TIMEOUT", "traceback": "", "exports": {}, "console": "", "wall_s": time.time() - t0}
+            else:
+                err = ""
+                if os.path.exists(job["out"] + ".err"):
+                    err = open(job["out"] + ".err").read()
+                res = {"exit": "CHILD_DIED:%s" % line, "traceback": err[-3000:], "exports": {}, "console": ""}
+            res["job_dir"] = job["dir"]
+            results[i] = res
+        try:
+            p.stdin.close()
+            p.wait(timeout=10)
+        except Exception:
+            p.kill()
+
+    threads = [threading.Thread(target=worker) for _ in range(n)]
+    for t in threads:
+        t.start()
+    for t in threads:
+        t.join()
+    return results
